@@ -19,13 +19,13 @@ def c12_x86(a, b):
     return got != want, f"is_reg_dependend_of({a!r},{b!r}) = {got}, architectural overlap = {want}"
 
 @replay
-def c12_a64(a, b):
+def c12_a64(a, b, written_a=None, written_b=None):
     from osaca.parser import ParserAArch64
     from osaca.parser.register import RegisterOperand as R
     from contracts import spec_regs as S
-    got = bool(ParserAArch64().is_reg_dependend_of(R(prefix=a[0], name=a[1]), R(prefix=b[0], name=b[1])))
+    got = bool(ParserAArch64().is_reg_dependend_of(R(prefix=a[0], name=a[1], **(written_a or {})), R(prefix=b[0], name=b[1], **(written_b or {}))))
     want = S.a64_family(*a) == S.a64_family(*b)
-    return got != want, f"is_reg_dependend_of({a},{b}) = {got}, architectural overlap = {want}"
+    return got != want, f"is_reg_dependend_of({a} {written_a or ''},{b} {written_b or ''}) = {got}, architectural overlap = {want}"
 
 RAW = {}
 def raw(f):
